@@ -694,6 +694,12 @@ _process_request_(struct qb_ipcs_connection *c, int32_t ms_timeout)
 			    c->description);
 		res = -ESHUTDOWN;
 		goto cleanup;
+	} else if (size < (ssize_t)sizeof(*hdr) ||
+		   hdr->size < (int32_t)sizeof(*hdr) || hdr->size > size) {
+		qb_util_log(LOG_DEBUG, "malformed request header (%s)",
+			    c->description);
+		res = -EINVAL;
+		goto cleanup;
 	} else {
 		c->stats.requests++;
 		res = c->service->serv_fns.msg_process(c, hdr, hdr->size);
